@@ -61,6 +61,25 @@ Theorem C05_occupancy_sum : forall n states,
 Proof. exact occupancy_sum. Qed.
 Print Assumptions C05_occupancy_sum.
 
+(* occupancy as the code counts it (np.unique over the flattened table) is the per-site count *)
+Theorem C05_occupancy_flat : forall states i, occ_flat states i = occ_count states i.
+Proof. exact occ_flat_is_occ_count. Qed.
+Print Assumptions C05_occupancy_flat.
+
+(* atom_locations / occupancy_by_site_type: the per-label sums add up to the visited (frame, atom) entries *)
+Theorem C05_label_total : forall labels states n (L : list Z),
+  NoDup L -> (forall k, 0 <= k < Z.of_nat n -> In (lab labels k) L) ->
+  (forall col x, In col states -> In x col -> -1 <= x < Z.of_nat n) ->
+  zsum (map (label_num labels states n) L) = visited_count states.
+Proof. exact label_total. Qed.
+Print Assumptions C05_label_total.
+
+Theorem C05_label_sites_total : forall labels n (L : list Z),
+  NoDup L -> (forall k, 0 <= k < Z.of_nat n -> In (lab labels k) L) ->
+  zsum (map (label_sites labels n) L) = Z.of_nat n.
+Proof. exact label_sites_total. Qed.
+Print Assumptions C05_label_sites_total.
+
 (* KNOWN FINDING D6: for the event table (which contains "no site" = -1) the hypothesis
    of C05_matrix_counts fails and so does its conclusion: the current code counts a move
    to "no site" in the last site's column. *)
